@@ -128,14 +128,106 @@ def restore_tie_case(arg):
     return res
 
 
+ALPHABET = [(k, u) for u in (0, 1) for k in ('snapA', 'snapB', 'del_old', 'del_new', 'clean')]
+EX_CONFIGS = {'shared': (True, 'shared'), 'independent': (True, 'independent'), 'clone': (True, 'clone'), 'plain': (False, 'clone')}
+
+
+def exhaustive_case(arg):
+    """one history over the 2-user alphabet {snapshot(file set A), snapshot(file set B), delete(oldest own), delete(newest own),
+    clean} in a fixed key graph; every step is recorded for the model comparison, referenced chunks are checked after every step,
+    every remaining snapshot is restored by its owner at the end (every prefix of this history is itself enumerated)"""
+    cfgname, ops = arg
+    from .. import common
+    common.use_rebuilt_chunker()
+    enc, kind = EX_CONFIGS[cfgname]
+    r = rng_for(0, 'C02-exhaustive-data')
+    blocks = [r.randbytes(n) for n in (40, 64, 100, 48)]
+    sets = {'A': {'a': blocks[0] + blocks[1], 'b': blocks[1] + blocks[2]}, 'B': {'a': blocks[0] + blocks[1], 'c': blocks[2] + blocks[3] + blocks[1]}}
+    res = {'cfg': cfgname, 'ops': [list(o) for o in ops], 'steps': [], 'violations': []}
+    with R.Scratch('c02x_%s_%s' % (cfgname, '_'.join('%s%d' % o for o in ops))) as sc:
+        w = World(sc, enc=enc, chunking=(8, 32), concurrent=2)
+        w.add_user(kind, base=0)
+        others = {}
+        for k, ui in ops:
+            u = w.users[ui]
+            before = w.abstract_store(others)
+            own = sorted(s for s, d in w.snap_by_sid.items() if d['location'] in w.backend.objects and d['owner'] == u.keyid and d['fam'] == u.fam)
+            if k in ('snapA', 'snapB'):
+                x = w.snapshot(ui, sets[k[-1]])
+                st = {'op': x['op'], 'error': None, 'uploaded': sorted({tuple(w.abstract_name(l)) for l in x['uploaded']})}
+            elif k == 'clean':
+                x = w.clean(ui)
+                st = {'op': x['op'], 'error': x['error']}
+            else:
+                sids = [own[0] if k == 'del_old' else own[-1]] if own else [999001]
+                x = w.delete(ui, sids)
+                st = {'op': x['op'], 'error': x['error']}
+            st['before'], st['after'], st['kind'] = before, w.abstract_store(others), k
+            res['steps'].append(st)
+            refs = {(e[0][1], c) for e in st['after'] if e[0][0] == 'snap' and e[1][0] == 'snap' for c in e[1][3]['chunks']}
+            have = {(e[0][1], e[0][2]) for e in st['after'] if e[0][0] == 'chunk' and e[1][0] == 'chunk'}
+            if refs - have:
+                res['violations'].append(('history:referenced-chunk-missing', f'{cfgname} {ops}: after {k} by user {ui} chunks {sorted(refs - have)[:3]} referenced by a remaining snapshot are gone'))
+        for s, d in w.snap_by_sid.items():
+            if d['location'] in w.backend.objects:
+                owner = next(i for i, uu in enumerate(w.users) if uu.keyid == d['owner'] and uu.fam == d['fam'])
+                err, tree = w.restore(owner, snapshot_regex='^' + d['name'] + '$')
+                if err is not None or tree != d['truth']:
+                    res['violations'].append(('history:remaining-snapshot-damaged', f'{cfgname} {ops}: snapshot #{s} no longer restores exactly ({err or "content differs"})'))
+    return res
+
+
+def check_exhaustive(res, drv, out):
+    enc = EX_CONFIGS[res['cfg']][0]
+    bad = 0
+    for m, st in zip(drv.ask_many([{'op': 'repo.step', 'enc': enc, 'store': st['before'], 'cmd': st['op']} for st in res['steps']]), res['steps']):
+        probs = []
+        if 'store' not in m:
+            probs.append('driver error ' + str(m.get('error')))
+        else:
+            if H.canon_store(m['store']) != H.canon_store(st['after']):
+                probs.append('object map differs')
+            if (m['error'] or None) != st['error']:
+                probs.append(f'error kind: model {m["error"]} implementation {st["error"]}')
+            if 'uploaded' in st and sorted(tuple(x) for x in m['uploaded']) != [tuple(x) for x in st['uploaded']]:
+                probs.append('uploaded set differs')
+        if probs:
+            bad += 1
+            out.disagreement(f'exhaustive {res["cfg"]} {res["ops"]} at {st["kind"]}: ' + '; '.join(probs), {'kind': 'exhaustive', 'cfg': res['cfg'], 'ops': res['ops']})
+        else:
+            out.traces_validated += 1
+    return bad
+
+
+def run_exhaustive(out, drv, max_len, sample_len, n_sample):
+    import itertools
+    import multiprocessing as mp
+    r = rng_for(out.seed, 'C02-exhaustive')
+    args = []
+    for cfg in EX_CONFIGS:
+        for n in range(1, max_len + 1):
+            args.extend((cfg, ops) for ops in itertools.product(ALPHABET, repeat=n))
+        for _ in range(n_sample):
+            args.append((cfg, tuple(r.choice(ALPHABET) for _ in range(sample_len))))
+    with mp.get_context('fork').Pool(min(16, os.cpu_count() or 4)) as pool:
+        for res in pool.imap_unordered(exhaustive_case, args, chunksize=8):
+            kinds = [k for k, _ in res['ops']]
+            out.case({'exhaustive': res['cfg'], 'ops': res['ops']}, any(k in ('del_old', 'del_new', 'clean') for k in kinds) and sum(k.startswith('snap') for k in kinds) >= 2)
+            out.count('exhaustive:' + res['cfg'] + ':len=%d' % len(res['ops']))
+            for sig, what in res['violations']:
+                out.violation(sig, what, {'kind': 'exhaustive', 'cfg': res['cfg'], 'ops': res['ops']})
+            if drv is not None:
+                check_exhaustive(res, drv, out)
+
+
 def run(out, drv, info):
     quick = out.tier == 'quick'
-    n_hist, n_ops = (160, 12) if quick else (1500, 30)
+    n_hist, n_ops = (160, 12) if quick else (900, 30)
     out.rule = ('case = one history: repository configuration (encrypted/plain, cipher, (min,max), concurrency 1–5, sync/async backend) × users '
                 '(owner + 0–3 of clone/shared/independent) × ' + str(n_ops) + ' operations from {snapshot of a file set built from shared blocks (paths appear/change/disappear, '
                 'repeat of the previous data), delete of own / another user\'s / unknown snapshots, clean, orphan injection}; '
                 'non-trivial = contains a successful delete or clean while ≥ 2 snapshot objects share ≥ 1 chunk; distinct = hash of (config, users, op kinds); '
-                'plus overlapping-snapshot cases (two real snapshot coroutines interleaved), non-trivial = the two file sets share a block')
+                'plus overlapping-snapshot cases (two real snapshot coroutines interleaved), non-trivial = the two file sets share a block; plus ALL histories up to length 2 (quick) / 3 (thorough) and a sample of length 4 over the alphabet {snapshot A, snapshot B, delete oldest own, delete newest own, clean} × 2 users in four key graphs (shared, independent, clone, unencrypted), non-trivial = ≥ 2 snapshots and a delete or clean; plus restore-tie cases (real restore vs model restore per (user, snapshot) pair)')
     out.assumptions = ['ideal cryptography: digest = content id, MAC names injective per key family (DESIGN.md §4)',
                        'destructive commands (delete, clean) do not overlap with other commands (README)',
                        'unencrypted repository = one family (no keys)',
@@ -151,6 +243,11 @@ def run(out, drv, info):
         out.count('overlap-case')
         for sig, what, rp in res['violations']:
             out.violation(sig, what, dict(rp, kind='overlap', seed=out.seed, idx=res['idx']))
+    # all short histories over a 2-user alphabet, four key graphs
+    if quick:
+        run_exhaustive(out, drv, 2, 4, 12)
+    else:
+        run_exhaustive(out, drv, 3, 4, 400)
     # restore tie
     n_rt = 40 if quick else 600
     with mp.get_context('fork').Pool(min(16, os.cpu_count() or 4)) as pool:
@@ -186,6 +283,10 @@ def check_restore_tie(res, drv, out):
 
 
 def replay(path, drv):
+    return X.hard_exit(_replay(path, drv))
+
+
+def _replay(path, drv):
     d = json.load(open(path))
     rp = d.get('replay', d)
     if rp.get('kind') == 'history':
@@ -196,6 +297,15 @@ def replay(path, drv):
         for v in res['violations']:
             print('violation', v[0], v[1])
         return 1 if res['violations'] else 0
+    if rp.get('kind') == 'exhaustive':
+        res = exhaustive_case((rp['cfg'], tuple(tuple(o) for o in rp['ops'])))
+        c = X._Collect()
+        bad = check_exhaustive(res, drv, c) if drv is not None else 0
+        for v in res['violations']:
+            print('violation', v[0], v[1])
+        for dd in c.d:
+            print('disagreement', dd)
+        return 1 if (res['violations'] or bad) else 0
     if rp.get('kind') == 'restore-tie':
         res = restore_tie_case((rp.get('seed', 0), rp['idx']))
         print('summary', res['summary'])
